@@ -7,6 +7,7 @@ CONSTANTS
   Segs = {}
   Sizes = {0, 1, 255, 256, 65535, 65536}
   BigSizes = {16777215}
+  BigFull = TRUE
   SeqLens = {2, 3, 4}
   Salts = {0, 1, 2, 3, 4, 5}
   SimLen = 0
